@@ -376,7 +376,7 @@ finish:;
 	if (nrep) mkdir(rdir, 0777);
 	for (int i = 0; i < nrep; i++) {
 		snprintf(paths[i], sizeof(paths[i]), "%s/C18-%016llx.txt", rdir, (unsigned long long)fnv1a(total.v[i].key));
-		if (write_replay(paths[i], &total.v[i].k, total.v[i].key, "see key") != 0) { fprintf(stderr, "c18: cannot write %s\n", paths[i]); return 2; }
+		if (write_replay(paths[i], &total.v[i].k, total.v[i].key, e_name[total.v[i].k.entry]) != 0) { fprintf(stderr, "c18: cannot write %s\n", paths[i]); return 2; }
 	}
 
 	FILE *f = fopen(out, "w");
